@@ -627,6 +627,26 @@ func genIterBoundaries(g *Gen, tier string, w *bufio.Writer) {
 			}
 		}
 	}
+	// more than three 256-bit chunks / 32-byte chunks: the iterators' backtracking over chunk
+	// indices that are not powers of two (3, 5, 6, 7, …)
+	for _, n := range []uint64{768, 769, 1023, 1024, 1025, 1279, 1281, 1792, 2047, 2048, 2049, 4097} {
+		for _, t := range []*Ty{{Kind: KBitvector, N: n}, {Kind: KBitlist, N: n}, {Kind: KBitlist, N: 1 << 30}} {
+			fmt.Fprintln(w, "begin")
+			fmt.Fprintf(w, "mk r %s %s %s\n", []string{"new", "dec"}[g.Intn(2)], t, &Val{Kind: VBits, Bits: g.randBits(int(n))})
+			fmt.Fprintln(w, "iter r ro")
+			fmt.Fprintln(w, "iter r idx")
+		}
+	}
+	for _, n := range []uint64{96, 97, 128, 129, 160, 161, 224, 255, 257} {
+		for _, e := range []*Ty{{Kind: KUint, N: 1}, {Kind: KUint, N: 2}} {
+			for _, t := range []*Ty{{Kind: KVector, N: n, Elem: e}, {Kind: KList, N: n, Elem: e}, {Kind: KList, N: 1 << 30, Elem: e}} {
+				fmt.Fprintln(w, "begin")
+				fmt.Fprintf(w, "mk r %s %s %s\n", []string{"new", "dec"}[g.Intn(2)], t, g.RandVal(&Ty{Kind: KVector, N: n, Elem: e}, 1000))
+				fmt.Fprintln(w, "iter r ro")
+				fmt.Fprintln(w, "iter r idx")
+			}
+		}
+	}
 	for _, lim := range []uint64{0, 1, 8, 255, 256, 257, 513, 1 << 20, 1 << 40} {
 		for _, n := range []uint64{0, 1, 7, 8, 9, 255, 256, 257, 511, 512, 513} {
 			if n <= lim {
